@@ -17,13 +17,12 @@ import (
 	"github.com/attestantio/vouch/services/blockrelay"
 	"github.com/attestantio/vouch/services/chaintime"
 	nullmetrics "github.com/attestantio/vouch/services/metrics/null"
-	"github.com/rs/zerolog"
 	e2wtypes "github.com/wealdtech/go-eth2-wallet-types/v2"
 )
 
 // c11New builds the service through its constructor.
 func c11New(ct chaintime.Service, acc accountmanager.ValidatingAccountsProvider, cfg blockrelay.ExecutionConfigProvider, submitters []eth2client.ProposalPreparationsSubmitter) *Service {
-	s, err := New(context.Background(), WithLogLevel(zerolog.Disabled), WithMonitor(&nullmetrics.Service{}),
+	s, err := New(context.Background(), WithLogLevel(vnd.LogLevel()), WithMonitor(&nullmetrics.Service{}),
 		WithChainTimeService(ct), WithValidatingAccountsProvider(acc), WithExecutionConfigProvider(cfg),
 		WithProposalPreparationsSubmitters(submitters))
 	vnd.Assert(err == nil && s != nil, "C11.new.accepted")
